@@ -1,4 +1,4 @@
-HOOK_COMMITS = ["8f1db09", "f0a0ebc", "2b8c50b", "3c0971f", "ac16556", "259d565","56b192c"]
+HOOK_COMMITS = ["8f1db09", "f0a0ebc", "2b8c50b", "3c0971f", "ac16556", "259d565","56b192c", "5e5adc9"]
 
 _PENDING = "no check registered in this commit yet (machinery under construction; see DESIGN.md §12)"
 NOT_APPLICABLE = {}
